@@ -799,7 +799,9 @@ func makeDerived(cfg string) error {
 		{"attachments", "add", "go.pdf", "att.txt"},
 		{"bookmarks", "import", "go.pdf", "bm.json", "BM.pdf"},
 		{"keywords", "add", "go.pdf", "KW.pdf", "alpha", "beta"},
+		{"viewerpref", "set", "go.pdf", "vp.json", "VP.pdf"},
 	}
+	must(os.WriteFile(filepath.Join(d, "vp.json"), []byte(viewerPrefJSON), 0o644))
 	for _, s := range steps {
 		rr := runBin(cfg, d, nil, s...)
 		if rr.exit != 0 {
@@ -840,7 +842,7 @@ func makeDerived(cfg string) error {
 		}
 		selRef[n] = p
 	}
-	for _, n := range []string{"ENC.pdf", "BM.pdf", "KW.pdf", "MULTI.pdf", "PROP.pdf", "SEL.pdf"} {
+	for _, n := range []string{"ENC.pdf", "BM.pdf", "KW.pdf", "MULTI.pdf", "PROP.pdf", "SEL.pdf", "VP.pdf"} {
 		b, err := os.ReadFile(filepath.Join(d, n))
 		if err != nil {
 			return err
@@ -1870,6 +1872,100 @@ func runFaults(rec recipe, idx int, cfg string, doc []byte, rev1 int) []*outcome
 	return outs
 }
 
+// ------------------------------------------------------------------ part F: list/info commands x flag combinations
+
+type listCmd struct {
+	name  string
+	base  []string // subcommand (+ fixed flags)
+	flags []string // boolean flags; every subset is run
+	in    string
+	quick bool
+}
+
+var listCmds = []listCmd{
+	{name: "viewerpref-list", base: []string{"viewerpref", "list"}, flags: []string{"--all", "--json"}, in: "VP.pdf", quick: true},
+	{name: "viewerpref-list-plain-doc", base: []string{"viewerpref", "list"}, flags: []string{"--all", "--json"}, in: "MULTI.pdf"},
+	{name: "info", base: []string{"info"}, flags: []string{"--fonts", "--json"}, in: "MULTI.pdf", quick: true},
+	{name: "info-pages", base: []string{"info", "-p", "1-2"}, flags: []string{"--fonts", "--json"}, in: "go.pdf"},
+	{name: "annotations-list", base: []string{"annotations", "list"}, flags: []string{"--json"}, in: "annotTest.pdf"},
+	{name: "form-list", base: []string{"form", "list"}, flags: []string{"--json"}, in: "samples:form/demo/english.pdf"},
+	{name: "attachments-list", base: []string{"attachments", "list"}, in: "ATT.pdf"},
+	{name: "portfolio-list", base: []string{"portfolio", "list"}, in: "ATT.pdf"},
+	{name: "bookmarks-list", base: []string{"bookmarks", "list"}, in: "BM.pdf"},
+	{name: "boxes-list", base: []string{"boxes", "list"}, in: "MULTI.pdf"},
+	{name: "images-list", base: []string{"images", "list"}, in: "go.pdf"},
+	{name: "keywords-list", base: []string{"keywords", "list"}, in: "KW.pdf"},
+	{name: "properties-list", base: []string{"properties", "list"}, in: "PROP.pdf"},
+	{name: "permissions-list", base: []string{"permissions", "list", "--upw", "u1"}, in: "ENC.pdf"},
+	{name: "pagelayout-list", base: []string{"pagelayout", "list"}, in: "MULTI.pdf"},
+	{name: "pagemode-list", base: []string{"pagemode", "list"}, in: "MULTI.pdf"},
+	{name: "signatures-validate", base: []string{"signatures", "validate"}, flags: []string{"--all", "--full"}, in: "MULTI.pdf"},
+	{name: "validate", base: []string{"validate"}, flags: []string{"--optimize", "--progress"}, in: "MULTI.pdf"},
+}
+
+func runListCmd(lc listCmd, idx int, cfg string) []*outcome {
+	var outs []*outcome
+	sample := fixture(lc.in)
+	for mask := 0; mask < 1<<len(lc.flags); mask++ {
+		var fl []string
+		isJSON := false
+		for i, f := range lc.flags {
+			if mask&(1<<i) != 0 {
+				fl = append(fl, f)
+				if f == "--json" {
+					isJSON = true
+				}
+			}
+		}
+		args := append(append([]string{}, lc.base...), fl...)
+		o := &outcome{rec: recipe{name: "list-" + lc.name, args: append(append([]string{}, args...), "IN")}, variant: "flags=" + strings.Join(fl, ",")}
+		outs = append(outs, o)
+		dir := filepath.Join(scratch, fmt.Sprintf("l%d-%d", idx, mask))
+		must(os.MkdirAll(dir, 0o755))
+		must(os.WriteFile(filepath.Join(dir, "in.pdf"), sample, 0o644))
+		fr := runBin(cfg, dir, nil, append(append([]string{}, args...), "in.pdf")...)
+		sr := runBin(cfg, dir, sample, append(append([]string{}, args...), "-")...)
+		input := fmt.Sprintf("file: pdfcpu %s in.pdf | stdin: pdfcpu %s - < in.pdf", strings.Join(args, " "), strings.Join(args, " "))
+		fail := func(class, detail string) { o.fails = append(o.fails, [3]string{class, input, trunc(detail, 500)}) }
+		tag := lc.name + ":" + strings.Join(fl, "")
+		switch {
+		case fr.exit != sr.exit:
+			fail("list-exit-status-differs:"+tag, fmt.Sprintf("file %d (%s) stdin %d (%s)", fr.exit, trunc(string(fr.stderr), 150), sr.exit, trunc(string(sr.stderr), 150)))
+		case isJSON && fr.exit == 0:
+			fv, e1 := oneJSON(fr.stdout)
+			sv, e2 := oneJSON(sr.stdout)
+			if e1 != nil || e2 != nil {
+				fail("json-stdout-not-one-document:list-"+tag, fmt.Sprint(e1, e2))
+				break
+			}
+			fb, _ := json.Marshal(scrubJSON(fv, ""))
+			sb, _ := json.Marshal(scrubJSON(sv, ""))
+			if !bytes.Equal(fb, sb) {
+				fail("list-output-differs-between-stdin-and-file:"+tag, firstDiff(string(fb), string(sb)))
+				break
+			}
+			o.ok()
+		default:
+			a, b := textNorm(fr.stdout, "in.pdf"), textNorm(sr.stdout, "in.pdf")
+			if a != b && strings.Contains(tag, "--fonts") {
+				// the font table lists equal names in map-iteration order: compare as multisets of lines
+				la, lb := strings.Split(a, "\n"), strings.Split(b, "\n")
+				sort.Strings(la)
+				sort.Strings(lb)
+				a, b = strings.Join(la, "\n"), strings.Join(lb, "\n")
+			}
+			if a != b {
+				fail("list-output-differs-between-stdin-and-file:"+tag, firstDiff(a, b))
+				break
+			}
+			o.ok()
+		}
+		o.counters = append(o.counters, "F:"+lc.name)
+		os.RemoveAll(dir)
+	}
+	return outs
+}
+
 func firstDiff(a, b string) string {
 	n := len(a)
 	if len(b) < n {
@@ -2092,6 +2188,27 @@ func main() {
 			eresults[i] = runFaults(recs[i], i, cfg, faultDoc, rev1)
 		}(i)
 	}
+	// part F
+	fresults := make([][]*outcome, len(listCmds))
+	for i := range listCmds {
+		if !thorough && !listCmds[i].quick && (i+int(r.Seed))%6 != 0 {
+			continue
+		}
+		wg.Add(1)
+		go func(i int) {
+			defer wg.Done()
+			sem <- struct{}{}
+			defer func() { <-sem }()
+			defer func() {
+				if p := recover(); p != nil {
+					o := &outcome{rec: recipe{name: "list-" + listCmds[i].name}, variant: "harness"}
+					o.fail("harness-panic:list-"+listCmds[i].name, fmt.Sprint(p))
+					fresults[i] = append(fresults[i], o)
+				}
+			}()
+			fresults[i] = runListCmd(listCmds[i], i, cfg)
+		}(i)
+	}
 	dresults := make([]*outcome, len(djobs))
 	for i := range djobs {
 		wg.Add(1)
@@ -2112,6 +2229,7 @@ func main() {
 	wg.Wait()
 	results = append(results, mresults...)
 	results = append(results, eresults...)
+	results = append(results, fresults...)
 	for _, o := range dresults {
 		if o != nil {
 			o.counters = append(o.counters, "D:"+o.rec.name)
